@@ -3,6 +3,7 @@ package props
 import (
 	"fmt"
 	"go/constant"
+	"go/token"
 	"go/types"
 	"strings"
 
@@ -152,6 +153,43 @@ func (r *Run) checkStringCodec(P string, tr *ssa.Function, fns []*ssa.Function, 
 			r.R.Check(okU && nU >= 1, P+".unescape.u", "E2: the four-digit reader is entered only for the escape character 'u'", core.FuncName(str), r.where(str),
 				"any other dispatch reads hex digits where there are none, or treats \\u as an unknown escape", fmt.Sprintf("%d call(s), all under next == 'u'", nU), fmt.Sprintf("%d call(s) of the \\u reader, guarded=%v", nU, okU))
 		}
+		// the decoded character is written: the \u reader's result on the branch where it is not a surrogate, the
+		// combination of the two halves on the other
+		if uesc != nil {
+			nPlain, okPlain := 0, true
+			for _, c := range r.callsIn(str, "Builder.WriteRune", "Buffer.WriteRune") {
+				if len(c.Common().Args) != 2 {
+					continue
+				}
+				uc, isCall := c.Common().Args[1].(*ssa.Call)
+				if !isCall || closureCallTarget(uc) != uesc {
+					continue
+				}
+				nPlain++
+				ut := ff.TB.Of(uc).String()
+				has := false
+				for _, fc := range ff.At(c) {
+					if fc.Kind == "false" && fc.A != nil && strings.Contains(fc.A.String(), "IsSurrogate("+ut) {
+						has = true
+					}
+				}
+				if !has {
+					okPlain = false
+				}
+			}
+			nPair := 0
+			for _, c := range r.callsIn(str, "Builder.WriteRune", "Buffer.WriteRune") {
+				if len(c.Common().Args) == 2 {
+					if dc, isCall := c.Common().Args[1].(*ssa.Call); isCall {
+						if sc := dc.Common().StaticCallee(); sc != nil && sc.String() == "unicode/utf16.DecodeRune" {
+							nPair++
+						}
+					}
+				}
+			}
+			r.R.Check(okPlain && nPlain == 1 && nPair == 1, P+".unescape.write", "E8: the character a \\u escape denotes is appended to the string — the reader's result where it is not a surrogate, utf16.DecodeRune of the two halves where it is", core.FuncName(str), r.where(str),
+				"an escape that is parsed but not written disappears from the string: \"a\\u0062c\" and \"ac\" get one canonical form", "both writes present", fmt.Sprintf("writes of a plain \\u result: %d (guarded by 'not a surrogate': %v), writes of a combined pair: %d", nPlain, okPlain, nPair))
+		}
 		// surrogate pair: the low half is read only after a second "\u" has been seen
 		for _, c := range r.callsIn(str, "utf16.DecodeRune") {
 			at := ff.At(c)
@@ -251,5 +289,72 @@ func (r *Run) checkStringCodec(P string, tr *ssa.Function, fns []*ssa.Function, 
 			r.R.Check(ok, P+".uescape.hex", "E2/E8: the \\u reader consumes exactly four characters through the scanner and parses them with strconv.ParseUint(…, 16, ≥16 bits), on the path without a recorded error", core.FuncName(uesc), r.P.Pos(c.Pos()),
 				"another base, width or digit count decodes every \\u escape to a different character or rejects it", "ParseUint(4 chars, 16, _)", fmt.Sprintf("base=%d bits=%d scanner calls before the parse=%d reached without error=%v arg=%s", base, bits, nNext, noErr, short(arg, 80)))
 		}
+	}
+}
+
+// checkTrailingProgress: the loop of Transform that walks what follows the value advances the cursor on every way back
+// to its head.
+func (r *Run) checkTrailingProgress(P string, tr *ssa.Function) {
+	ff := r.E.Facts(tr, core.Ctx{})
+	id := P + ".trailing.progress"
+	rule := "E8 progress: every way round the trailing-content loop passes the increment of the cursor it tests"
+	why := "without the increment a document followed by one whitespace byte never returns"
+	n := 0
+	for _, h := range allLoopHeads(tr) {
+		// the loop tests cursor < len(input)
+		iff, ok := h.Instrs[len(h.Instrs)-1].(*ssa.If)
+		if !ok {
+			continue
+		}
+		cmp, ok := iff.Cond.(*ssa.BinOp)
+		if !ok || cmp.Op != token.LSS {
+			continue
+		}
+		ld, ok := cmp.X.(*ssa.UnOp)
+		if !ok || ld.Op != token.MUL {
+			continue
+		}
+		al, ok := ld.X.(*ssa.Alloc)
+		if !ok {
+			continue
+		}
+		n++
+		good := true
+		for _, p := range h.Preds {
+			if !h.Dominates(p) {
+				continue // entry edge
+			}
+			if ff.Live != nil && !ff.Live[p] {
+				continue
+			}
+			inc := false
+			for _, b := range tr.Blocks {
+				if !(h.Dominates(b) && (b == p || b.Dominates(p))) {
+					continue
+				}
+				for _, ins := range b.Instrs {
+					st, isSt := ins.(*ssa.Store)
+					if !isSt || st.Addr != ssa.Value(al) {
+						continue
+					}
+					if bo, isB := st.Val.(*ssa.BinOp); isB && bo.Op == token.ADD {
+						if l2, isL := bo.X.(*ssa.UnOp); isL && l2.X == ssa.Value(al) {
+							if k, isK := constInt(bo.Y); isK && k > 0 {
+								inc = true
+							}
+						}
+					}
+				}
+			}
+			if !inc {
+				good = false
+			}
+		}
+		r.R.Check(good, id, rule, core.FuncName(tr), r.P.Pos(h.Instrs[0].Pos()), why, "cursor incremented on every back edge", "a back edge of the loop is reachable without the increment of the cursor")
+	}
+	if n == 0 {
+		// the loop may have been given another form (three-clause for with the increment in the post statement is the same
+		// SSA shape; a range over the rest of the input has no cursor to forget): nothing to check
+		r.R.Ok(id, rule, core.FuncName(tr), r.where(tr), why, "no cursor-tested loop in Transform itself")
 	}
 }
